@@ -8,6 +8,19 @@ MUTATORS = ('append', 'extend', 'insert', 'pop', 'remove', 'reverse', 'sort', 'c
             'popleft', 'appendleft', 'setdefault', 'rotate', 'extendleft', 'popitem', '__setitem__', '__delitem__')
 
 
+_OWNER = [None]   # class whose method is being analysed (name mangling of self.__x depends on it)
+
+
+def _attr_name(attr):
+    """``self.__x`` written in class C is ``_C__x``: it backs property x only if C itself defines that property"""
+    if attr.startswith('__') and not attr.endswith('__'):
+        owner = _OWNER[0]
+        if owner is None or attr[2:] in getattr(owner, 'properties', {}):
+            return attr[2:]
+        return '_%s%s' % (owner.name.split('[')[0].lstrip('_'), attr)
+    return attr
+
+
 def self_loc(e, selfname='self'):
     """``self.a`` -> 'a'; ``self.a[0]`` -> 'a[0]'; ``self.a[i][j]`` -> 'a[i][j]'; else None."""
     subs = []
@@ -15,7 +28,7 @@ def self_loc(e, selfname='self'):
         subs.append(ast.unparse(e.slice))
         e = e.value
     if isinstance(e, ast.Attribute) and isinstance(e.value, ast.Name) and e.value.id == selfname:
-        return unmangle(e.attr) + ''.join('[%s]' % s for s in reversed(subs))
+        return _attr_name(e.attr) + ''.join('[%s]' % s for s in reversed(subs))
     return None
 
 
@@ -35,7 +48,20 @@ class Effects(object):
         return set(self.writes) | {base_attr(l) for l in self.mutations}
 
 
-def method_effects(func_node):
+def method_effects(func_node, owner=None):
+    """func_node: ast.FunctionDef, or a FuncInfo (then its class decides how ``self.__x`` is mangled)"""
+    if hasattr(func_node, 'node') and hasattr(func_node, 'owner'):
+        owner = func_node.owner
+        func_node = func_node.node
+    prev = _OWNER[0]
+    _OWNER[0] = owner
+    try:
+        return _method_effects(func_node)
+    finally:
+        _OWNER[0] = prev
+
+
+def _method_effects(func_node):
     selfname = func_node.args.args[0].arg if func_node.args.args else 'self'
     ef = Effects()
 
@@ -55,7 +81,7 @@ def method_effects(func_node):
                 target(e, None)
             return
         if isinstance(t, ast.Attribute) and isinstance(t.value, ast.Name) and t.value.id == selfname:
-            ef.writes.setdefault(unmangle(t.attr), []).append(value)
+            ef.writes.setdefault(_attr_name(t.attr), []).append(value)
             return
         if isinstance(t, ast.Subscript):
             loc = self_loc(t.value, selfname)
@@ -77,7 +103,7 @@ def method_effects(func_node):
                 target(t, st.value)
         elif isinstance(st, ast.AugAssign):
             if isinstance(st.target, ast.Attribute) and isinstance(st.target.value, ast.Name) and st.target.value.id == selfname:
-                ef.writes.setdefault(unmangle(st.target.attr), []).append(None)
+                ef.writes.setdefault(_attr_name(st.target.attr), []).append(None)
             else:
                 target(st.target, None)
                 if isinstance(st.target, ast.Name) and st.target.id in ef.aliases:
@@ -93,7 +119,7 @@ def method_effects(func_node):
                     elif isinstance(t.value, ast.Name) and t.value.id in ef.aliases:
                         note_mut(ef.aliases[t.value.id], t)
                 elif isinstance(t, ast.Attribute) and isinstance(t.value, ast.Name) and t.value.id == selfname:
-                    ef.writes.setdefault(unmangle(t.attr), []).append(None)
+                    ef.writes.setdefault(_attr_name(t.attr), []).append(None)
         elif isinstance(st, ast.Call) and isinstance(st.func, ast.Attribute):
             recv = st.func.value
             if st.func.attr in MUTATORS:
@@ -107,7 +133,7 @@ def method_effects(func_node):
             if isinstance(recv, ast.Name) and recv.id == selfname:
                 ef.self_calls.setdefault(st.func.attr, []).append(st)
         if isinstance(st, ast.Attribute) and isinstance(st.ctx, ast.Load) and isinstance(st.value, ast.Name) and st.value.id == selfname:
-            ef.reads.setdefault(unmangle(st.attr), []).append(st)
+            ef.reads.setdefault(_attr_name(st.attr), []).append(st)
     return ef
 
 
@@ -119,7 +145,7 @@ def transitive_effects(ix, cls, meth_name, _seen=None):
     if f is None or (id(f)) in _seen:
         return total
     _seen.add(id(f))
-    ef = method_effects(f.node)
+    ef = method_effects(f)
     _merge(total, ef)
     for name in ef.self_calls:
         if name in cls_property_names(ix, cls):
